@@ -1077,6 +1077,8 @@ def evaluate(r: Rat, val: dict, fns: dict | None = None):
                 return F(round(args[0]))
             if a.name == 'floor':
                 return F(args[0].__floor__())
+            if a.name == 'ceil':
+                return F(args[0].__ceil__())
             if a.name in ('pymax', 'max2'):
                 return max(args)
             if a.name in ('pymin', 'min2'):
